@@ -1,0 +1,42 @@
+//go:build verif
+
+package verifbridge
+
+import (
+	iobject "github.com/nspcc-dev/neofs-node/internal/object"
+	"github.com/nspcc-dev/neofs-sdk-go/object"
+	iprotobuf "github.com/nspcc-dev/neofs-sdk-go/proto/protobuf"
+)
+
+// WireExtractHeaderAndPayload re-exports [iobject.ExtractHeaderAndPayload].
+func WireExtractHeaderAndPayload(data []byte) (*object.Object, []byte, error) {
+	return iobject.ExtractHeaderAndPayload(data)
+}
+
+// WireGetNonPayloadFieldBounds re-exports [iobject.GetNonPayloadFieldBounds].
+func WireGetNonPayloadFieldBounds(buf []byte) (iprotobuf.FieldBounds, iprotobuf.FieldBounds, iprotobuf.FieldBounds, error) {
+	return iobject.GetNonPayloadFieldBounds(buf)
+}
+
+// WireGetParentNonPayloadFieldBounds re-exports [iobject.GetParentNonPayloadFieldBounds].
+func WireGetParentNonPayloadFieldBounds(buf []byte) (iprotobuf.FieldBounds, iprotobuf.FieldBounds, iprotobuf.FieldBounds, error) {
+	return iobject.GetParentNonPayloadFieldBounds(buf)
+}
+
+// WireGetParentNonPayloadFieldBoundsHeader re-exports [iobject.GetParentNonPayloadFieldBoundsHeader].
+func WireGetParentNonPayloadFieldBoundsHeader(buf []byte) (iprotobuf.FieldBounds, iprotobuf.FieldBounds, iprotobuf.FieldBounds, error) {
+	return iobject.GetParentNonPayloadFieldBoundsHeader(buf)
+}
+
+// WireGetPayloadLengthHeader re-exports [iobject.GetPayloadLengthHeader].
+func WireGetPayloadLengthHeader(buf []byte) (uint64, error) {
+	return iobject.GetPayloadLengthHeader(buf)
+}
+
+// WireGetTypeHeader re-exports [iobject.GetTypeHeader].
+func WireGetTypeHeader(buf []byte) (object.Type, error) {
+	return iobject.GetTypeHeader(buf)
+}
+
+// WireWriteWithoutPayload re-exports [iobject.WriteWithoutPayload].
+var WireWriteWithoutPayload = iobject.WriteWithoutPayload
